@@ -122,6 +122,15 @@ def _run_main(repo: Repo, ctx) -> None:
                 and isinstance(st.value, ast.Dict):
             full_update = {comp(norm(k)): comp(norm(v))
                            for k, v in zip(st.value.keys, st.value.values)}
+    if full is None and full_update is None:
+        # neither the slot list nor the belief record of the full-sync arm
+        # has the shape these rules read (a list literal handed to
+        # preargs.extend, a dict literal bound to to_update): the sender was
+        # rewritten, its order cannot be read off
+        raise AnalysisError(
+            'C17.R1: the full-sync arm of _compute_compile_preargs no '
+            'longer builds its slots from a list literal and its belief '
+            'record from a dict literal; slot order cannot be decided')
     ctx.ob('C17.R1', f'{_short(pre)}:full-arm-order', full == COMPONENTS,
            f'full-sync slot order {full} differs from the protocol order '
            f'{COMPONENTS}', pre.loc, sample=full)
@@ -409,10 +418,13 @@ def _run_main(repo: Repo, ctx) -> None:
             if g.edge_dominates(t.id, 'T', a):
                 branch = norm(t.ast)
         if branch == 'status == 1':
-            guards = [t.id for t in g.nodes if t.kind == 'test'
-                      and 'not isinstance(exc, state.FailedStateSync)'
-                      in norm(t.ast)]
-            ok = any(g.edge_dominates(t, 'T', a) for t in guards)
+            # path fact: when the error is a FailedStateSync the
+            # acknowledgement is not reachable, however the test is spelt
+            from ..absint import Facts, open_nodes
+            F = Facts({'isinstance(exc, state.FailedStateSync)': True},
+                      call.node)
+            on = open_nodes(g, F)
+            ok = bool(F.used) and a not in on
             ctx.ob('C17.R3', f'{_short(call)}:no-ack-on-failed-sync', ok,
                    'on a worker-side error the belief is acknowledged even '
                    'when the error is FailedStateSync',
